@@ -27,6 +27,12 @@ CHECKS["C11"] = dict(
     text="TLC visits every interleaving of Add / three-phase remove / CloseSession / Broadcast(Except) copy-then-send / SendTo over 3 connections (same-peer-id reconnect, two sessions) and checks no-panic, routability, no-leak, isolation; sampled transitions of that graph are forced on the real Hub by parking each operation's goroutine between its lock regions, comparing maps and delivered messages with the spec and evaluating the oracle (recovered panics, List/SendTo for live peers, leftovers, stuck operations) on the real object.",
     note="trusted: TLC, the gate placement at the hook points, goroutine-id based routing of hook events; bounds 3 connections, <=2 broadcasts, 1 SendTo; writer goroutine not gated")
 
+CHECKS["C19"] = dict(
+    category="model_checking", design_ref="5.14",
+    technique="TLA+ spec Geometry.tla: theorems decided symbolically by Apalache over the full 10 TiB x 2^32 range, small domain enumerated by TLC; function table and Apalache-checked observation table bind the spec to the real Go functions",
+    text="Apalache proves tiling and agreement of the four chunk-count expressions for every size up to 10 TiB and every chunk size up to 2^32-1 (and refutes the negative controls); TLC enumerates a small domain with a small word so truncation is visited; every table row and boundary/random large pairs are evaluated on the real chunkTotal / chunkSizeForIndex / CreateSidecar with an independent tiling oracle, and the large observations are re-checked against the operators by Apalache.",
+    note="trusted: Apalache + z3, TLC; the receiver-side expression is bound by the transfer checks")
+
 NOT_APPLICABLE = {}
 
 HOOK_COMMITS = ["6b59734", "6335744"]
